@@ -1,0 +1,10 @@
+//go:build !verif
+
+package clock
+
+// verification hooks (build tag verif): no-ops in normal builds.
+
+func verifWall() int64 { return 0 }
+
+// VerifInit is a no-op unless built with tag verif.
+func (c *Clock) VerifInit() {}
